@@ -3,11 +3,13 @@
    UUID sniffer says no, a content that IsJWT accepts is described by JWTData, whatever the
    sniffers of the later rows (IsASN1, IsBase64ASN1, IsMixedPEM) answer.
    No axioms; standard library only. *)
-From WI Require Import Lib.Base Lib.Info Lib.Strings Model.Dispatch.
-From WI Require Proofs.Dispatch Proofs.Jwt.
+From WI Require Import Lib.Base Lib.Info Lib.Strings Lib.Utf8 Model.Dispatch Model.Base64 Model.Jwt.
+From WI Require Proofs.Dispatch Proofs.Jwt Proofs.Base64 Model.Uuid Spec.C17 Proofs.Uuid.
 From Coq Require Import List NArith Lia Bool.
+From Coq Require Import ZifyN ZifyNat ZifyBool.
 Import ListNotations.
 Open Scope N_scope.
+Local Ltac Zify.zify_post_hook ::= Z.div_mod_to_equations.
 
 Definition is_jwt_row (r : row) : bool := bytes_eqb (r_sniffer r) (bs "IsJWT").
 
@@ -110,3 +112,327 @@ Lemma dispatch_order_before_F37_rejected :
   dispatch_ok [mkrow [] [] (bs "IsUUID") (bs "UUIDValue"); mkrow [] [] (bs "IsASN1") (bs "ASN1File");
                mkrow [] [] (bs "IsBase64ASN1") (bs "Base64ASN1File"); mkrow [] [] (bs "IsJWT") (bs "JWTData")] = false.
 Proof. vm_compute. reflexivity. Qed.
+
+(* ====================================================================================== *)
+(* C18_dispatch in full: the hypotheses about signatures and the UUID sniffer are derived  *)
+(* from recognition.                                                                       *)
+(* ====================================================================================== *)
+
+(* ---- (b) a text the UUID recogniser accepts has no '.' ---------------------------------- *)
+(* the bytes a text accepted by Model/Uuid.v is made of: hexadecimal digits, '-', braces, the
+   letters and the colon of "urn:uuid:" (either case), and the bytes of the UTF-8 encodings of
+   the white-space code points strings.TrimSpace removes *)
+Definition ws_bytes : bytes := flat_map encode_rune Spec.C17.white_space.
+Definition uuid_text_byte (c : N) : bool :=
+  existsb (N.eqb c) ws_bytes
+  || ((48 <=? c) && (c <=? 57)) || ((65 <=? c) && (c <=? 70)) || ((97 <=? c) && (c <=? 102))
+  || (c =? 45) || (c =? 123) || (c =? 125)
+  || existsb (N.eqb c) (bs "urn:uidURNUID").
+
+(* the bytes of the four lower-case forms *)
+Definition form_byte (d : N) : bool :=
+  ((48 <=? d) && (d <=? 57)) || ((97 <=? d) && (d <=? 102))
+  || (d =? 45) || (d =? 123) || (d =? 125) || existsb (N.eqb d) (bs "urn:uid").
+
+Lemma forallb_take : forall (P : N -> bool) n l, forallb P l = true -> forallb P (take n l) = true.
+Proof.
+  intros P n. induction n as [|n IH]; intros [|x l] H; cbn [take forallb] in *; try reflexivity.
+  apply andb_prop in H. destruct H as [A B]. rewrite A, (IH _ B). reflexivity.
+Qed.
+Lemma forallb_drop : forall (P : N -> bool) n l, forallb P l = true -> forallb P (drop n l) = true.
+Proof.
+  intros P n. induction n as [|n IH]; intros [|x l] H; cbn [drop forallb] in *; try reflexivity; try exact H.
+  apply andb_prop in H. destruct H as [_ B]. exact (IH _ B).
+Qed.
+
+Lemma hex_digit_form : forall d, d < 16 -> form_byte (hex_digit false d) = true.
+Proof.
+  intros d H. unfold form_byte, hex_digit.
+  destruct (d <? 10) eqn:E.
+  - replace ((48 <=? 48 + d) && (48 + d <=? 57)) with true by lia. reflexivity.
+  - replace ((48 <=? 87 + d) && (87 + d <=? 57)) with false by lia.
+    replace ((97 <=? 87 + d) && (87 + d <=? 102)) with true by lia. reflexivity.
+Qed.
+
+Lemma hex_of_form : forall u, bytes_ok u = true -> forallb form_byte (hex_of false u) = true.
+Proof.
+  induction u as [|b u IH]; intros H; [reflexivity|].
+  cbn [bytes_ok forallb] in H. apply andb_prop in H. destruct H as [Hb Hu]. unfold byte_ok in Hb.
+  unfold hex_of. cbn [flat_map hex_byte app forallb].
+  rewrite !hex_digit_form by lia. cbn [andb]. exact (IH Hu).
+Qed.
+
+Lemma canon_form : forall u, bytes_ok u = true -> forallb form_byte (Model.Uuid.canon u) = true.
+Proof.
+  intros u H. pose proof (hex_of_form u H) as Hh. unfold Model.Uuid.canon. cbv zeta.
+  rewrite !forallb_app.
+  rewrite !forallb_take by (try apply forallb_drop; exact Hh).
+  rewrite forallb_drop by exact Hh. reflexivity.
+Qed.
+
+Lemma form_bytes : forall f u, Model.Uuid.uuid_ok u = true -> forallb form_byte (Model.Uuid.form f u) = true.
+Proof.
+  intros f u H. unfold Model.Uuid.uuid_ok in H. apply andb_prop in H. destruct H as [_ H].
+  destruct f; cbn [Model.Uuid.form].
+  - apply canon_form; exact H.
+  - rewrite !forallb_app, canon_form by exact H. reflexivity.
+  - rewrite forallb_app, canon_form by exact H. reflexivity.
+  - apply hex_of_form; exact H.
+Qed.
+
+Lemma lower_form_byte : forall c, form_byte (to_lower_ascii c) = true -> uuid_text_byte c = true.
+Proof.
+  intros c. unfold form_byte, uuid_text_byte, to_lower_ascii.
+  cbn [bs bytes_of_string existsb N_of_ascii]. cbn.
+  destruct ((65 <=? c) && (c <=? 90)) eqn:U; intros H;
+    repeat (apply orb_true_iff in H; destruct H as [H|H]); try discriminate H;
+    repeat rewrite orb_true_iff; lia.
+Qed.
+
+Lemma ws_run_bytes : forall cps, Forall Proofs.Uuid.is_ws cps ->
+  forallb uuid_text_byte (flat_map encode_rune cps) = true.
+Proof.
+  intros cps H. apply forallb_forall. intros c Hc. apply in_flat_map in Hc. destruct Hc as (x & Hx & Hc).
+  rewrite Forall_forall in H. specialize (H x Hx). unfold Proofs.Uuid.is_ws in H.
+  unfold uuid_text_byte. replace (existsb (N.eqb c) ws_bytes) with true; [reflexivity|].
+  symmetry. apply existsb_exists. exists c. split; [|apply N.eqb_refl].
+  unfold ws_bytes. apply in_flat_map. exists x. split; assumption.
+Qed.
+
+(* every text Model/Uuid.v accepts consists of those bytes only *)
+Theorem uuid_text_bytes : forall s, Model.Uuid.is_uuid s = true -> forallb uuid_text_byte s = true.
+Proof.
+  intros s H. destruct (Proofs.Uuid.accepted_text_shape s H) as (u & f & t & c1 & c2 & Hu & Hm & H1 & H2 & ->).
+  rewrite !forallb_app, (ws_run_bytes _ H1), (ws_run_bytes _ H2). rewrite andb_true_r. cbn [andb].
+  unfold Model.Uuid.same_up_to_case in Hm. pose proof (form_bytes f u Hu) as Hf. rewrite <- Hm in Hf.
+  apply forallb_forall. intros c Hc. apply lower_form_byte.
+  rewrite forallb_forall in Hf. apply Hf. apply in_map. exact Hc.
+Qed.
+
+Lemma dot_not_uuid_byte : uuid_text_byte dot = false.
+Proof. vm_compute. reflexivity. Qed.
+
+Corollary dotted_not_uuid : forall s, In dot s -> Model.Uuid.is_uuid s = false.
+Proof.
+  intros s Hin. destruct (Model.Uuid.is_uuid s) eqn:E; [|reflexivity].
+  pose proof (uuid_text_bytes s E) as H. rewrite forallb_forall in H. specialize (H dot Hin).
+  rewrite dot_not_uuid_byte in H. discriminate H.
+Qed.
+
+(* ---- (a) no signature of the table is a prefix of a token ------------------------------- *)
+(* what encoding/json is assumed to do: only a text whose first byte is '{' or JSON white space
+   decodes into a map (every theorem below that names it takes it as a hypothesis on J) *)
+Definition J_object_start (J : bytes -> jres) : Prop :=
+  forall b, is_object (J b) = true -> exists c r, b = c :: r /\ json_start c = true.
+
+(* the first two base64 characters determine the first decoded byte *)
+Definition head_pair_ok (a b : N) : bool :=
+  existsb (fun u => match b64val u a, b64val u b with
+                    | Some x, Some y => json_start (x * 4 + y / 16)
+                    | _, _ => false
+                    end) [true; false].
+
+Lemma q3_first : forall x y z w, y < 64 -> z < 64 -> w < 64 ->
+  exists r, q3 x y z w = (x * 4 + y / 16) :: r.
+Proof. intros x y z w Hy Hz Hw. unfold q3. cbv zeta. eexists. f_equal. lia. Qed.
+
+Lemma core_head : forall f u p t c r, core f u p t = Some (c :: r) ->
+  exists a b t' x y, t = a :: b :: t' /\ b64val u a = Some x /\ b64val u b = Some y /\ c = x * 4 + y / 16.
+Proof.
+  intros f u p t c r H. destruct f as [|f]; [discriminate|].
+  destruct t as [|a [|b [|c' [|d t']]]]; cbn [core] in H; try discriminate.
+  - destruct p; [discriminate|].
+    destruct (b64val u a) as [x|] eqn:Ea; [|discriminate]. destruct (b64val u b) as [y|] eqn:Eb; [|discriminate].
+    pose proof (Proofs.Jwt.b64val_lt64 _ _ _ Eb). destruct (q3_first x y 0 0) as [q Hq]; try lia.
+    unfold q1 in H. rewrite Hq in H. cbn [take] in H. injection H as <- _.
+    exists a, b, [], x, y. auto.
+  - destruct p; [discriminate|].
+    destruct (b64val u a) as [x|] eqn:Ea; [|discriminate]. destruct (b64val u b) as [y|] eqn:Eb; [|discriminate].
+    destruct (b64val u c') as [z|] eqn:Ec; [|discriminate].
+    pose proof (Proofs.Jwt.b64val_lt64 _ _ _ Eb). pose proof (Proofs.Jwt.b64val_lt64 _ _ _ Ec).
+    destruct (q3_first x y z 0) as [q Hq]; try lia.
+    unfold q2 in H. rewrite Hq in H. cbn [take] in H. injection H as <- _.
+    exists a, b, [c'], x, y. auto.
+  - destruct (b64val u a) as [x|] eqn:Ea; [|discriminate]. destruct (b64val u b) as [y|] eqn:Eb; [|discriminate].
+    pose proof (Proofs.Jwt.b64val_lt64 _ _ _ Eb).
+    exists a, b, (c' :: d :: t'), x, y. split; [reflexivity|]. split; [exact Ea|]. split; [exact Eb|].
+    destruct (b64val u c') as [z|] eqn:Ec.
+    + pose proof (Proofs.Jwt.b64val_lt64 _ _ _ Ec).
+      destruct (b64val u d) as [w|] eqn:Ed.
+      * pose proof (Proofs.Jwt.b64val_lt64 _ _ _ Ed).
+        destruct (core f u p t') as [rest|]; [|discriminate].
+        destruct (q3_first x y z w) as [q Hq]; try lia. rewrite Hq in H. cbn [app] in H. injection H as <- _. reflexivity.
+      * destruct (p && (d =? 61)); [|discriminate]. destruct t'; [|discriminate].
+        destruct (q3_first x y z 0) as [q Hq]; try lia. unfold q2 in H. rewrite Hq in H. cbn [take] in H.
+        injection H as <- _. reflexivity.
+    + destruct (p && (c' =? 61) && (d =? 61)); [|discriminate]. destruct t'; [|discriminate].
+      destruct (q3_first x y 0 0) as [q Hq]; try lia. unfold q1 in H. rewrite Hq in H. cbn [take] in H.
+      injection H as <- _. reflexivity.
+Qed.
+
+Lemma strip_head : forall s a t, strip_nl s = a :: t ->
+  exists n s', s = n ++ a :: s' /\ forallb is_nl n = true /\ strip_nl s' = t.
+Proof.
+  induction s as [|c s IH]; intros a t H; [discriminate|].
+  unfold strip_nl in H. cbn [filter] in H. destruct (is_nl c) eqn:E; cbn [negb] in H.
+  - destruct (IH a t H) as (n & s' & -> & Hn & Ht). exists (c :: n), s'. cbn [app forallb]. rewrite E, Hn. auto.
+  - injection H as <- <-. exists [], s. auto.
+Qed.
+
+Lemma b64val_not_nl : forall u c v, b64val u c = Some v -> is_nl c = false /\ c < 256.
+Proof.
+  intros u c v. unfold b64val, is_nl.
+  destruct ((65 <=? c) && (c <=? 90)) eqn:A; [intros _; lia|].
+  destruct ((97 <=? c) && (c <=? 122)) eqn:B; [intros _; lia|].
+  destruct ((48 <=? c) && (c <=? 57)) eqn:C; [intros _; lia|].
+  destruct u; destruct (c =? 45) eqn:E1, (c =? 95) eqn:E2, (c =? 43) eqn:E3, (c =? 47) eqn:E4; intros H;
+    try discriminate; lia.
+Qed.
+
+Lemma head_pair_chars : forall a b, head_pair_ok a b = true ->
+  is_nl a = false /\ is_nl b = false /\ b < 256.
+Proof.
+  intros a b H. unfold head_pair_ok in H. cbn [existsb] in H. rewrite orb_false_r in H.
+  apply orb_true_iff in H.
+  destruct H as [H|H];
+    [destruct (b64val true a) eqn:Ea; [|discriminate]; destruct (b64val true b) eqn:Eb; [|discriminate]
+    |destruct (b64val false a) eqn:Ea; [|discriminate]; destruct (b64val false b) eqn:Eb; [|discriminate]];
+    destruct (b64val_not_nl _ _ _ Ea); destruct (b64val_not_nl _ _ _ Eb); auto.
+Qed.
+
+(* the shape of the beginning of a token: line ends, a base64 character, line ends, a second
+   base64 character, such that the first decoded byte is '{' or JSON white space *)
+Definition token_head (tok : bytes) : Prop :=
+  exists n1 a n2 b rest, tok = n1 ++ a :: n2 ++ b :: rest /\
+    forallb is_nl n1 = true /\ forallb is_nl n2 = true /\ head_pair_ok a b = true.
+
+Lemma jwt_token_head : forall J tok, J_object_start J -> is_jwt J tok = true -> token_head tok.
+Proof.
+  intros J tok HJ H. apply Proofs.Jwt.recognised_iff in H.
+  destruct H as (h & p & g & -> & _ & _ & _ & (hb & Hd & Ho) & _ & _).
+  destruct (HJ hb Ho) as (c & r & -> & Hc).
+  destruct (Proofs.Base64.decode_any_sound _ _ Hd) as [e He]. unfold std_decode in He.
+  destruct (core_head _ _ _ _ _ _ He) as (a & b & t' & x & y & Ht & Ea & Eb & ->).
+  destruct (strip_head _ _ _ Ht) as (n1 & s1 & -> & Hn1 & Hs1).
+  destruct (strip_head _ _ _ Hs1) as (n2 & s2 & -> & Hn2 & _).
+  exists n1, a, n2, b, (s2 ++ dot :: p ++ dot :: g). repeat split; try assumption.
+  - rewrite <- !app_assoc. cbn [app]. rewrite <- !app_assoc. reflexivity.
+  - unfold head_pair_ok. cbn [existsb]. destruct (enc_url e); rewrite Ea, Eb, Hc; [reflexivity | apply orb_true_r].
+Qed.
+
+Fixpoint skip_nl (m : bytes) : bytes :=
+  match m with
+  | c :: r => if is_nl c then skip_nl r else m
+  | [] => []
+  end.
+
+(* a signature that cannot be the beginning of a token: after line ends its first two characters
+   are not a possible pair (a one-character signature: not a possible first character) *)
+Definition magic_clear (m : bytes) : bool :=
+  match skip_nl m with
+  | [] => false
+  | a :: m1 =>
+      match skip_nl m1 with
+      | [] => negb (existsb (head_pair_ok a) (Proofs.Base64.range 256))
+      | b :: _ => negb (head_pair_ok a b)
+      end
+  end.
+
+Lemma prefix_skip : forall n m rest, forallb is_nl n = true -> prefix_of m (n ++ rest) = true ->
+  skip_nl m = [] \/ exists m', skip_nl m = skip_nl m' /\ prefix_of m' rest = true.
+Proof.
+  induction n as [|c n IH]; intros m rest Hn Hp.
+  - right. exists m. auto.
+  - cbn [forallb] in Hn. apply andb_prop in Hn. destruct Hn as [Hc Hn].
+    destruct m as [|c' m]; [left; reflexivity|].
+    cbn [app prefix_of] in Hp. apply andb_prop in Hp. destruct Hp as [E Hp]. apply N.eqb_eq in E. subst c'.
+    cbn [skip_nl]. rewrite Hc. exact (IH m rest Hn Hp).
+Qed.
+
+Lemma clear_not_prefix : forall m tok, token_head tok -> magic_clear m = true -> prefix_of m tok = false.
+Proof.
+  intros m tok (n1 & a & n2 & b & rest & -> & Hn1 & Hn2 & Hab) Hc.
+  destruct (prefix_of m (n1 ++ a :: n2 ++ b :: rest)) eqn:Hp; [|reflexivity]. exfalso.
+  destruct (head_pair_chars a b Hab) as (Na & Nb & Lb).
+  assert (Hex : existsb (head_pair_ok a) (Proofs.Base64.range 256) = true).
+  { apply existsb_exists. exists b. split; [apply Proofs.Base64.in_range; exact Lb | exact Hab]. }
+  unfold magic_clear in Hc.
+  destruct (prefix_skip n1 m _ Hn1 Hp) as [E | (m' & E & Hp')]; [rewrite E in Hc; discriminate|].
+  rewrite E in Hc. clear E Hp.
+  destruct m' as [|a' m1]; [discriminate Hc|].
+  cbn [prefix_of] in Hp'. apply andb_prop in Hp'. destruct Hp' as [Ea Hp1]. apply N.eqb_eq in Ea. subst a'.
+  cbn [skip_nl] in Hc. rewrite Na in Hc.
+  destruct (prefix_skip n2 m1 _ Hn2 Hp1) as [E | (m2 & E & Hp2)].
+  - rewrite E, Hex in Hc. discriminate.
+  - rewrite E in Hc. destruct m2 as [|b' m3].
+    + cbn [skip_nl] in Hc. rewrite Hex in Hc. discriminate.
+    + cbn [prefix_of] in Hp2. apply andb_prop in Hp2. destruct Hp2 as [Eb _]. apply N.eqb_eq in Eb. subst b'.
+      cbn [skip_nl] in Hc. rewrite Nb, Hab in Hc. discriminate.
+Qed.
+
+Definition magics_clear (t : list row) : bool := forallb (fun r => forallb magic_clear (r_magics r)) t.
+
+(* T1: every signature of the regenerated table *)
+Lemma magics_clear_now : magics_clear table = true.
+Proof. vm_compute. reflexivity. Qed.
+
+Lemma no_magic_matches : forall t tok, magics_clear t = true -> token_head tok ->
+  forall r, In r t -> matches_magic r tok = false.
+Proof.
+  intros t tok Ht Hh r Hr. unfold magics_clear in Ht. rewrite forallb_forall in Ht. specialize (Ht r Hr).
+  unfold matches_magic. destruct (existsb (fun m => prefix_of m tok) (r_magics r)) eqn:E; [|reflexivity].
+  apply existsb_exists in E. destruct E as (m & Hm & Hp).
+  rewrite forallb_forall in Ht. rewrite (clear_not_prefix m tok Hh (Ht m Hm)) in Hp. discriminate.
+Qed.
+
+(* ---- the dispatch theorem ---------------------------------------------------------------- *)
+Lemma jwt_has_dot : forall J tok, is_jwt J tok = true -> In dot tok.
+Proof.
+  intros J tok H. apply Proofs.Jwt.recognised_iff in H. destruct H as (h & p & g & -> & _).
+  apply in_or_app. right. left. reflexivity.
+Qed.
+
+Theorem jwt_dispatch : forall J other_sniff other_parse name tok,
+  J_object_start J ->
+  (forall r, In r table -> matches_name r name = Ok false) ->
+  is_jwt J tok = true ->
+  exists j, parse_jwt J tok = Ok j /\
+            inspect_jwt J other_sniff other_parse name tok = Ok (describe_jwt j).
+Proof.
+  intros J os op name tok HJ Hname Hjwt.
+  assert (Hd : is_ok (jwt_data J tok) = true) by (rewrite Proofs.Jwt.described_iff_recognised; exact Hjwt).
+  destruct (jwt_data J tok) as [i| |] eqn:Ei; try discriminate Hd.
+  destruct (proj1 (Proofs.Jwt.jwt_data_ok_iff J tok i) Ei) as (j & Hj & ->).
+  exists j. split; [exact Hj|].
+  unfold inspect_jwt. apply jwt_reached_now.
+  - exact Hname.
+  - apply (no_magic_matches table tok magics_clear_now (jwt_token_head J tok HJ Hjwt)).
+  - unfold jwt_sniff, jwt_sniff_with. cbn. apply dotted_not_uuid. exact (jwt_has_dot J tok Hjwt).
+  - unfold jwt_sniff, jwt_sniff_with. cbn. exact Hjwt.
+  - unfold jwt_parse. cbn. exact Ei.
+Qed.
+
+(* ---- the short cut the case runner takes changes nothing ---------------------------------- *)
+Lemma is_uuid_quick_eq : forall d, is_uuid_quick d = Model.Uuid.is_uuid d.
+Proof.
+  intros d. unfold is_uuid_quick. destruct (existsb (N.eqb dot) d) eqn:E; [|reflexivity].
+  apply existsb_exists in E. destruct E as (x & Hx & Ex). apply N.eqb_eq in Ex. subst x.
+  symmetry. apply dotted_not_uuid. exact Hx.
+Qed.
+
+Lemma candidates_ext : forall s1 s2 name data, (forall n, s1 n data = s2 n data) ->
+  forall t, candidates_in s1 t name data = candidates_in s2 t name data.
+Proof.
+  intros s1 s2 name data H. induction t as [|r t IH]; [reflexivity|].
+  cbn [candidates_in]. rewrite IH.
+  replace (row_matches s1 name data r) with (row_matches s2 name data r); [reflexivity|].
+  unfold row_matches, smells_like. destruct (r_sniffer r); [reflexivity|]. rewrite H. reflexivity.
+Qed.
+
+Theorem inspect_quick_eq : forall J os op name data,
+  inspect_jwt_quick J os op name data = inspect_jwt J os op name data.
+Proof.
+  intros. unfold inspect_jwt_quick, inspect_jwt, inspect, inspect_in.
+  rewrite (candidates_ext (jwt_sniff_with is_uuid_quick J os) (jwt_sniff J os) name data); [reflexivity|].
+  intros n. unfold jwt_sniff, jwt_sniff_with. rewrite is_uuid_quick_eq. reflexivity.
+Qed.
